@@ -76,6 +76,29 @@ func init() {
 			"seed/hash independence of the traversal's control flow (node bytes never reach a branch or an index) is argued from the code structure, it is not a discharged obligation",
 		},
 	}
+	propConfigs["C06"] = &propConfig{
+		level: "other",
+		explain: "Deductive part (all inputs): every hash construction of the scheme is proved equal to its specification over uninterpreted hash primitives: coreHash = H_id(toByte(type,32) || key || in) for ids 0..2 and a no-op otherwise, prf (type 3), hashF (type 0, key = PRF(pubSeed, addr|km=0), mask km=1), hashH (type 1, masks km=1,2), hMsg (type 2, 96-byte key), big-endian address serialisation and toByte, getSeed, expandSeed, the SHAKE-256 seed expansion and sk/pk layout of XMSSFastGenKeyPair, and the signing-side wiring of xmssFastSignMessage (R = PRF(SK_PRF, toByte(idx,32)), hash key R || root || toByte(idx,32), index field, randomiser field, authentication path copied from the state BEFORE the traversal step); Verify == VerifyWithCustomWOTSParamW(.., 16). Bounded part (labelled): an independent full-Merkle-tree reference implementation written from RFC 8391 + QRL conventions reproduces the library's public key and the signature bytes at every index of the listed heights for all three hash functions; tree root / authentication-path contents additionally inherit the label run of C01. Not under functional contract: the recursive structure of WOTS chains, L-tree and Merkle tree (genChain, lTree, treeHashSetup are verified for safety and frames only).",
+		extras: func(e *Engine, tier string, seed int) []ExtraResult {
+			hs := []int{4}
+			if tier == "thorough" {
+				hs = []int{4, 6, 8}
+			}
+			out := e.refRun(hs, seed)
+			out = append(out, e.tableRun("misc", "misc/table_test.go.txt", 2)...)
+			return append(out, e.labelRun(labelHeights(tier))...)
+		},
+		trusted: []string{
+			"byte-identity of whole keys and signatures with the reference is decided by a bounded differential run (heights 4 (quick) / 4,6,8 (thorough)); the per-hash-call constructions and the wiring are proved for all inputs",
+		},
+	}
+	propConfigs["C04"] = &propConfig{
+		level: "proof",
+		trusted: []string{
+			"'any changed bit / other key / other index is rejected' is a collision-resistance statement, not a functional one, and is not claimed; what is proved is which bytes are interpreted how, the full 32-byte comparison, and the rejection of unsupported hash ids and inconsistent heights",
+			"xmssVerifySig's callees (hMsg, wotsPKFromSig, lTree, validateAuthPath) enter through their `pure` abstraction plus the hash-construction contracts of C06; the recursive chain/L-tree/fold structure is not under functional contract",
+		},
+	}
 	propConfigs["C08"] = &propConfig{
 		level:   "other",
 		explain: "Deductive part: (i) bdsRound, bdsTreeHashUpdate, treeHashSetup and initializeTree carry `pure` contracts (result and final state are a function of the arguments; bdsRound/bdsTreeHashUpdate depend on the address argument only through addr[0:3]) discharged by the effects back end on go/ssa, with assigns clauses confining their writes to the traversal state; (ii) lemma function verifLemmaUpdateToCurrentIsIdentity: a jump to the current index changes neither sk nor any traversal buffer; (iii) the index/seed part of the state (sk) evolves identically on the signing and the fast-forward path (C02 contracts). The product-program lemma 'one Sign step == one fast-forward step on the whole traversal state' (verifLemmaSignStepEqualsUpdateStep) is written and well-formed but the solvers do not decide it within the limits; it is NOT claimed. Bounded stand-in for it (labelled bounded): with the real hash functions, for every index of the listed small heights and all three hash functions, the complete state (sk, stack, levels, auth, keep, retain, every treehash instance) reached by signing equals the state reached by one jump and by two jumps on a fresh key, and the next signatures are byte-identical.",
